@@ -11,7 +11,7 @@
    million tokens of liabilities), for all worlds satisfying HOk, all instructions, all amounts, all prices,
    all clock values, SPL and Token-2022 mints with any transfer fee; and lift it to histories of any length. *)
 Require Import Base Constants Fixed Curve Bank BankOps Risk TransferFee Handlers.
-Require Import FixedLemmas BankLemmas AccrualLemmas SolvencyLemmas HandlerEffects SolvencyHandlers SolvencyWorld.
+Require Import FixedLemmas BankLemmas AccrualLemmas SolvencyLemmas LedgerLemmas HandlerEffects SolvencyHandlers SolvencyWorld HandlerWorld.
 Local Open Scope Z_scope.
 
 (* one successful instruction: for every bank, the gap falls by at most the rounding allowance of that
@@ -48,11 +48,30 @@ Theorem C01_accrual_allowance :
   wf_bank b' /\ 0 < b_asv b' /\ valid_curve b' /\ b_op_state b' = b_op_state b.
 Proof. exact NAV_accrue. Qed.
 
-(* histories of any length (failed instructions roll back): the gap of every bank is at least the initial gap
-   minus the sum of the per-instruction allowances, unless a sanctioned exception hit that bank.
-   _partial: well-formedness (HOk: share values > 0, valid curve, totals cover positions) is assumed at every
-   state of the history (run_ok); C02 proves the totals-cover-positions part for the wrapper state machine. *)
-Theorem C01_history_partial :
+(* well-formedness is an invariant: HOk2 = program fee rate in [0,1] + every bank well-formed (share values > 0,
+   valid seven-point curve, fee buckets representable, transfer-fee bps <= 10000) + the ledger invariant of C02 at
+   instruction level (bank totals cover the sum of all positions).  Every successful instruction preserves it,
+   unless it is a bankruptcy that wipes the bank out (kills it). *)
+Theorem C01_wellformedness_preserved :
+  forall w o w', HOk2 w -> hop_ok2 o -> hstep w o = Ok w' ->
+  HOk2 w' \/ exists a b hb', o = HBankruptcy a b /\ nth_bank w' b = Ok hb' /\ b_op_state (hb_b hb') = OP_KILLED.
+Proof. exact hstep_HOk2. Qed.
+
+Theorem C01_HOk2_implies_HOk : forall w, HOk2 w -> HOk w.
+Proof. exact HOk2_HOk. Qed.
+
+(* histories of any length (failed instructions roll back): from a well-formed world, for any sequence of
+   instructions with u64 amounts (liquidator <> liquidatee) in which no bank is wiped out, the gap of every bank is at
+   least the initial gap minus the sum of the per-instruction allowances — unless a sanctioned token-less write-off hit
+   that bank.  No assumption on intermediate states. *)
+Theorem C01_history :
+  forall ops w b hb, HOk2 w -> Forall hop_ok2 ops -> run_no_wipeout w ops -> nth_bank w b = Ok hb ->
+  exists hb', nth_bank (hrun w ops) b = Ok hb' /\ (gap hb - run_slack w ops b <= gap hb' \/ run_exception w ops b).
+Proof. exact hrun_gap_full. Qed.
+
+(* the same with the well-formedness of every visited state as an explicit hypothesis instead (covers histories
+   with wipe-outs, for the banks that stay alive) *)
+Theorem C01_history_given_wellformed_states :
   forall ops w b hb, run_ok w ops -> nth_bank w b = Ok hb ->
   exists hb', nth_bank (hrun w ops) b = Ok hb' /\ (gap hb - run_slack w ops b <= gap hb' \/ run_exception w ops b).
 Proof. exact hrun_gap. Qed.
@@ -71,12 +90,15 @@ Example C01_nonvacuous :
   | Err _ => -1 end = 0.
 Proof. vm_compute. reflexivity. Qed.
 
-Example C01_HOk_example : HOk ex_world /\ hop_ok (HDeposit 0 0 1000 false).
+Example C01_HOk2_example : HOk2 ex_world /\ hop_ok2 (HDeposit 0 0 1000 false).
 Proof.
   pose proof ONE_pos as HO.
-  split; [|cbn; lia]. unfold HOk. split.
+  split; [|split; cbn; [lia|exact I]]. unfold HOk2. split.
   { unfold pf_ok, ex_world. cbn [hw_pf pf_rate]. split; [apply Z.div_pos; lia|]. apply Z.div_le_upper_bound; lia. }
   split.
+  - unfold HLedger, bw_of, ex_world. cbn [hw_banks hw_accts hw_now hw_pf map ex_hb hb_b ha_la].
+    apply (ledger_init [ex_bank] 1). constructor; [|constructor].
+    unfold wf_sv. cbn [ex_bank b_asv b_lsv b_tas b_tls]. nia.
   - intros [|b] hb H; [|destruct b; discriminate]. apply Ok_inj in H. subst hb.
     split; [|unfold fees_rep; cbn [ex_hb hb_b ex_bank b_grp b_prog]; rewrite I128_MIN_val; lia].
     unfold hb_ok. cbn [ex_hb hb_b hb_tf_bps hb_tf_max].
@@ -86,13 +108,12 @@ Proof.
     unfold valid_curve. split; [|split; [vm_compute; reflexivity|reflexivity]].
     unfold CurveLemmas.cfg_ok. cbn [ex_bank b_ir ir_zero ir_hundred ir_points]. rewrite U32_MAXZ_val.
     split; [lia|]. split; [lia|]. constructor; [|constructor]. unfold CurveLemmas.pt_ok. cbn. rewrite ?U32_MAXZ_val. lia.
-  - intros [|a] ac H; [|destruct a; discriminate]. apply Ok_inj in H. subst ac.
-    split.
-    + cbn [ha_la]. unfold la_empty. apply Forall_forall. intros x Hx. apply repeat_spec in Hx. subst x. unfold wf_bal. cbn. lia.
-    + intros b hb _ x Hx Hact. cbn [ha_la] in Hx. unfold la_empty in Hx. apply repeat_spec in Hx. subst x. discriminate.
 Qed.
 
 Print Assumptions C01_step.
 Print Assumptions C01_allowance_is.
 Print Assumptions C01_accrual_allowance.
-Print Assumptions C01_history_partial.
+Print Assumptions C01_wellformedness_preserved.
+Print Assumptions C01_HOk2_implies_HOk.
+Print Assumptions C01_history.
+Print Assumptions C01_history_given_wellformed_states.
